@@ -49,10 +49,13 @@ TMessageDelta == /\ IsOut("message_delta")
                  /\ Consume
 TMessageStop  == IsOut("message_stop") /\ MessageStop /\ Consume
 TPing         == IsOut("ping") /\ UNCHANGED vars /\ Consume
-TEnd          == Is("End") /\ strict /\ End /\ Consume
+\* "never hang": a translation that reports success has read the backend's stream to its end -- the handler
+\* waits for the proxy goroutine, which otherwise stays blocked writing into the pipe
+TEnd          == Is("End") /\ strict /\ End /\ (~E.err => E.drained) /\ Consume
 
 \* malformed / arbitrarily interleaved input: the property only promises that the translator comes back
 TLax == /\ ~strict /\ (Is("Buffered") \/ Is("Out") \/ Is("End"))
+        /\ (Is("End") /\ ~E.err => E.drained)
         /\ UNCHANGED vars /\ Consume
 
 (* Known finding KF-C13-1 (only if listed): a tool call that directly follows another tool call is   *)
